@@ -37,14 +37,17 @@ CHECKS = {
          "1-3 variables declared in non-sorted order over range (linear/log, with/without endpoint, 1 and 3 steps), explicit sequences (mapping and YAML-list form, lengths 1-3) and from_context domains; both modes, broadcast on/off; expressions incl. none, functions and multi-variable forms; source, operation and probe wrappers; every placement of the non-swept parameter; alone and inside surrounding pipelines (sum, slicer, probe); precedence and rejection cases. Element count, order and values, the typed collection / probe list, data pass-through and every <var>_values key must equal the reference.",
          "reference mc/ref/sweep.py written from docs/source/collection_modifiers.rst; relative tolerance 1e-9 on range values", "3 C03"),
  "C04": ("exploration", "exhaustive application of validated meaning-preserving rewrites at every position of every configuration (in-process), plus fresh-process probes over hash seeds x cwd x virtual clock x enumerated prior histories; three identity paths and CLI stdout compared",
-         "Every configuration of a set covering all node kinds, nested parameters, 1-2-variable sweeps of every domain kind and run-space blocks is rewritten in every single cosmetic way at every applicable position (mapping key order, flow/block, quoting, anchors/aliases, comments/indentation, equivalent scalar spellings, all permutations and bracketings of +/* chains in sweep expressions) and in pairs; each rewrite is validated by re-loading to the identical structure, then node UUIDs, pipeline id and the byte-exact inspection payload must be unchanged. Fresh interpreters with different PYTHONHASHSEED, cwd, a virtual clock a year apart and all histories of length <=1 (thorough <=2) over {inspect B, construct B, run B, run A, inspect A} must reproduce the same identities; inspection payload, Pipeline construction, pipeline_start and  stdout must agree.",
+         "Every configuration of a set covering all node kinds, nested parameters, 1-2-variable sweeps of every domain kind and run-space blocks is rewritten in every single cosmetic way at every applicable position (mapping key order, flow/block, quoting, anchors/aliases, comments/indentation, equivalent scalar spellings, all permutations and bracketings of +/* chains in sweep expressions) and in pairs; each rewrite is validated by re-loading to the identical structure, then node UUIDs, pipeline id and the byte-exact inspection payload must be unchanged. Fresh interpreters with different PYTHONHASHSEED, cwd, a virtual clock a year apart and all histories of length <=1 (thorough <=2) over {inspect B, construct B, run B, run A, inspect A} must reproduce the same identities; inspection payload, Pipeline construction, pipeline_start and 'semantiva inspect' stdout must agree.",
          "PyYAML (YAML 1.1) scalar resolution defines 'equivalent spelling'; 1 vs 1.0 is not treated as equivalent; environment factors are rotated against histories rather than fully crossed", "3 C04"),
  "C05": ("exploration", "exhaustive single-point semantic mutation of every configuration, one operator per identity-bearing field at every applicable position; ID inequality and UUID distinctness as oracle",
          "For every configuration: change the processor of each node, every parameter leaf / key / list element at any depth, delete / duplicate / swap nodes, and for sweeps the wrapped processor, each expression (constant, variable, operator, function, swapped operands of non-commutative operators; grid-equal mutants discarded), every field of every variable domain incl. each element of each sequence (also the middle of a 9-element one), mode, broadcast and collection. Each mutant must change semantic ID, config ID and the affected node's UUID or node semantic ID; all node UUIDs in every pipeline must be pairwise distinct.",
          "context_key is not an identity-bearing field per the property; expression equivalence decided on the integer grid {-2..3}^3", "3 C05"),
  "C09": ("exploration", "enumerated (pipeline, run_space) launches through the real CLI with a failing run at every index; each run compared with a standalone CLI run of the same context; lifecycle grammar and ID relations checked under rewrites and single-point plan mutations",
-         "Three pipelines (with probe, conditional failure, per-run sink file; one with a sweep whose domain comes from the run context) x five run-space shapes (zip, two blocks, product, per-run list values, csv source) x run counts x failing run at every index x file/directory output are launched through semantiva.cli.main. Runs must happen in plan order, each run's trace (minus volatile fields and run-space foreign keys) and sink output must equal a standalone  of that run's context, the launch must be bracketed by exactly one run_space_start / run_space_end with truthful counts also on failure, every pipeline_start must carry launch id, attempt, 0-based index and context; the spec ID must equal the one  prints, survive cosmetic rewrites, change under every single-point plan mutation and block reordering; idempotency-key launch ids must be reproducible and key/plan sensitive, generated ids distinct, explicit ids and attempts honoured, inputs id content- but not mtime-sensitive.",
+         "Three pipelines (with probe, conditional failure, per-run sink file; one with a sweep whose domain comes from the run context) x five run-space shapes (zip, two blocks, product, per-run list values, csv source) x run counts x failing run at every index x file/directory output are launched through semantiva.cli.main. Runs must happen in plan order, each run's trace (minus volatile fields and run-space foreign keys) and sink output must equal a standalone 'semantiva run --context' of that run's context, the launch must be bracketed by exactly one run_space_start / run_space_end with truthful counts also on failure, every pipeline_start must carry launch id, attempt, 0-based index and context; the spec ID must equal the one 'semantiva inspect' prints, survive cosmetic rewrites, change under every single-point plan mutation and block reordering; idempotency-key launch ids must be reproducible and key/plan sensitive, generated ids distinct, explicit ids and attempts honoured, inputs id content- but not mtime-sensitive.",
          "CLI driven in-process; gc.collect() stands in for interpreter exit; volatile-field list as documented", "3 C09"),
+ "C17": ("exploration", "exhaustive enumeration of CLI invocations (configurations x flag subsets x supplied/missing context x overrides x caps) through semantiva.cli.main; decision table from the CLI documentation plus the reference interpreter as oracle; absence of any artefact as the 'not executed' observation",
+         "19 configurations (valid ones, a failing run at each index, and one per documented way of being invalid, incl. use-before-create and a type change hidden behind a context-only node) plus broken / missing files are run with every subset of {--validate, --dry-run, --run-space-dry-run}, every subset of the needed --context keys (plus extra / failure-marker keys), valid and unknown --set paths and --run-space-max-runs values. Whenever the exit code is a pre-flight class (1-3) or a no-execution flag is given, no processor may have run and no sink or trace file may exist; a run that the reference interpreter says cannot resolve its parameters or types must be rejected before anything executes; exit 0 must coincide with every planned run completing, a failing run gives 4, later runs do not start.",
+         "decision table written from docs/source/cli.rst; under --validate run-space problems may or may not be reported; in-process CLI", "3 C17"),
 }
 NA = []
 def main():
